@@ -306,6 +306,24 @@ CLAIMS = {
         design="§7 C14",
         note=TB + "eval() of the input module and str.format of the wrap template run for real; find_in_ast findings of C15 are inherited.",
     ),
+    "C19": dict(
+        technique="Lean 4 theorems on the assembly step of gen (statement order, one definition per entry) + differential run of the statement order; structural predicate on the generated file",
+        text=(
+            "Kernel-checked about Gen.genBody / Gen.hoist (the assembly of the generated module): genBody_defs (the "
+            "definitions are exactly one per mapping entry, named by the template, in mapping order - for any mapping "
+            "length), hoist_split (every import precedes every other statement), hoist_length and filter_other_hoist "
+            "(nothing lost or duplicated; prepended statements and definitions keep their relative order). The order model "
+            "is tied to the code by comparing the top-level statement sequence of every real output file with Gen.hoist of "
+            "the production order. The predicate imports generated input modules from a scratch directory, calls the real "
+            "gen() for the three output types, templates, prepend and imports-from-file options and checks: parses, one "
+            "definition per entry by name and order and type, __all__, prepend/imports once and first, parameter names of "
+            "each definition against its source object. Partial: the in-memory inspection (inspect.getsource, module "
+            "import) and the per-entry parse/emit are real code, not modelled; refusal of an existing output is checked "
+            "under C20."
+        ),
+        design="§7 C19",
+        note=TB + "Module import, inspect and eval of prepended imports run for real; annotated callables are a recorded finding.",
+    ),
 }
 
 PENDING_REASON = "check not built yet in this round (work in progress; see DESIGN.md §10 build order) — not a claim that the technique cannot apply"
